@@ -146,6 +146,14 @@ def _make_patch_async(
 class _PatchAsync(_patch):
     def __enter__(self):
         mock_fn = super(_PatchAsync, self).__enter__()
+        if self.new_callable is not None:
+            # a replacement made by new_callable has not been through _maybe_wrap_new: if
+            # it cannot take the attributes set below (a bound method), install a wrapper
+            # (patch.multiple: mock_fn is a dict, which is left alone)
+            wrapped = _maybe_wrap_new(mock_fn)
+            if wrapped is not mock_fn:
+                setattr(self.target, self.attribute, wrapped)
+                mock_fn = wrapped
         # so we can also mock non-functions for compatibility
         if callable(mock_fn):
             async_fn = _AsynqWrapper(mock_fn)
